@@ -6,6 +6,8 @@ git diff --quiet || { echo "repo dirty"; exit 2; }
 git apply $d/patch.diff || { echo "patch does not apply"; exit 2; }
 PYTHONPATH=/repo /venv/bin/python -W ignore $d/demo.py >/dev/null 2>&1; echo "demo_with_change_exit=$?"
 /venv/bin/python -m pytest -q -p no:cacheprovider --timeout=900 2>&1 | tail -1
+cp /verif/evidence/$p.json /tmp/_ev_$p.json 2>/dev/null
 cd /verif && ./check $p "$@" 2>&1 | grep -E "^(VIOLATION|OK|KNOWN)" | head -3
+cp /tmp/_ev_$p.json /verif/evidence/$p.json 2>/dev/null   # keep the evidence of the last run on the unchanged tree
 cd /repo && git checkout -- . 
 PYTHONPATH=/repo /venv/bin/python -W ignore $d/demo.py >/dev/null 2>&1; echo "demo_without_change_exit=$?"
